@@ -480,7 +480,7 @@ pub fn gen_scenario_full(seed: u64, idx: usize, big: bool, big_stderr: bool, hug
     }
     if huge.is_some() {
         gp.flavor = gen::Flavor::Git;
-        gp.sections = (0..rng.range(60, 80)).map(|_| *rng.pick(&[gen::SectionKind::Modified, gen::SectionKind::Added, gen::SectionKind::Deleted])).collect();
+        gp.sections = (0..rng.range(500, 600)).map(|_| *rng.pick(&[gen::SectionKind::Modified, gen::SectionKind::Added, gen::SectionKind::Deleted])).collect();
         gp.max_run = 60;
         gp.max_hunks = 4;
     }
@@ -1049,7 +1049,7 @@ pub fn main_c18(env: &Env, tier: &str, seed: u64, replay: Option<&str>) -> i32 {
     exit
 }
 
-fn fixed_scenarios(seed: u64) -> Vec<Scenario> {
+pub fn fixed_scenarios(seed: u64) -> Vec<Scenario> {
     // deterministic coverage floor: each one-shot flag once, stdin diff in each paging mode with default pager
     let mut v = Vec::new();
     for j in 0..2 {
